@@ -411,6 +411,7 @@ fn replay(path: &str) -> i32 {
         "text" => eng_text::replay(&v),
         "nested" => eng_nested::replay(&v),
         "drops" => eng_drops::replay(&v),
+        "graphemes" | "iterinput" | "cursor" => eng_inputs::replay(&v),
         "leftrec" | "rec" | "rec-life" | "rec-depth" | "rec-define" => eng_rec::replay(&v),
         _ => cvh::replay::replay(&v),
     };
@@ -433,7 +434,7 @@ fn replay(path: &str) -> i32 {
 
 fn main() {
     register_runners(vec![
-        cvh_i0::run, cvh_i1::run, cvh_i2::run, cvh_i3::run, cvh_i4::run, cvh_i5::run, cvh_i6::run, cvh_i7::run, cvh_i8::run, cvh_i9::run,
+        cvh_i0::run, cvh_i1::run, cvh_i2::run, cvh_i3::run, cvh_i4::run, cvh_i5::run, cvh_i6::run, cvh_i7::run, cvh_i8::run, cvh_i9::run, cvh_i10::run,
     ]);
     let args: Vec<String> = std::env::args().skip(1).collect();
     let code = match args.first().map(|s| s.as_str()) {
